@@ -119,6 +119,25 @@ def even_spread(t, total, n):
                             r = norm_guard(inc[2][0], b)
                             q = base_
         if q is None or r is None:
+            # [q + 1] * r + [q] * (n - r)
+            cc = t
+            parts = None
+            if cc[0] == 'bin' and cc[1] == 'Add':
+                parts = [cc[2], cc[3]]
+            elif cc[0] == 'cat' and len(cc[1]) == 2:
+                parts = list(cc[1])
+            if parts and all(p[0] == 'bin' and p[1] == 'Mult' for p in parts):
+                def rep_(p):
+                    for lst, cnt_ in ((p[2], p[3]), (p[3], p[2])):
+                        if lst[0] == 'list' and len(lst[1]) == 1:
+                            return lst[1][0], cnt_
+                    return None
+                a, b_ = rep_(parts[0]), rep_(parts[1])
+                if a and b_ and a[0] in (BIN('Add', b_[0], C(1)), BIN('Add', C(1), b_[0])) and b_[1] in (BIN('Sub', n, a[1]),):
+                    kq, kr = quotient_of(b_[0], total, n), remainder_of(a[1], total, n)
+                    if kq is not None and kr is not None:
+                        return dict(ok=True, why='', coerced=(kq == 'int'), q=b_[0], r=a[1])
+                    return dict(ok=False, why='shares %s / %s are not floor(total/n) and total %% n' % (show(b_[0])[:40], show(a[1])[:40]))
             return dict(ok=False, why='not an even-spread idiom: ' + show(t)[:120], unknown=True)
     if cnt != n:
         return dict(ok=False, why='produces %s entries, expected %s' % (show(cnt), show(n)))
